@@ -14,11 +14,11 @@ REPO_TESTS_UNDER_CONTRACTS = True
 RULE = ('cases = (solver, order p, real/complex, how the autocorrelation was generated '
         '(sample autocorrelation | step-up from reflection coefficients with a |k| profile | '
         'indefinite perturbation), container type); non-trivial when p >= 2; distinct = distinct '
-        'descriptor. Systems for HERMTOEP/TOEPLITZ/CHOLESKY are Hermitian PD resp. diagonally '
-        'dominant with random right-hand sides.')
+        'descriptor. Systems for HERMTOEP/CHOLESKY are Hermitian PD; for TOEPLITZ diagonally dominant or general with well-conditioned leading blocks, '
+        'random right-hand sides.')
 ASSUMPTIONS = ['scipy.linalg.toeplitz + explicit products define the equations',
                'definiteness decided by numpy.linalg.eigvalsh with margins 1e-8 (PD) / -1e-6 (indefinite); in between is discarded',
-               'TOEPLITZ admissible = every Schur-complement pivot has real part > 0.05|T0| (computed independently)']
+               'TOEPLITZ admissible = every leading principal block has condition number <= 1e3 (the recursion has no pivoting); pivots of either sign / any phase are admissible']
 REQUIRED_ANCHORS = ('LEVINSON', 'HERMTOEP', 'TOEPLITZ', 'CHOLESKY')
 
 
@@ -133,21 +133,44 @@ def post_TOEPLITZ(T0, TC, TR, Z, result):
     if len(TC) != len(TR) or len(Z) != len(TC) + 1 or len(TC) > 24:
         c.discard('TOEPLITZ:shape-domain')
         return
-    A, piv = toeplitz_pivots(T0, TC, TR)
-    if np.min(piv.real) <= 0.05 * abs(T0):
-        c.discard('TOEPLITZ:pivot-guard')
+    try:
+        A = scipy.linalg.toeplitz(np.concatenate([[T0], TC]), np.concatenate([[T0], TR])).astype(complex)
+        lead = max(float(np.linalg.cond(A[:m, :m])) for m in range(1, A.shape[0] + 1))
+    except Exception:
+        return c.discard('TOEPLITZ:shape-domain')
+    if not np.isfinite(lead) or lead > 1e3:
+        # the recursion has no pivoting: it is admissible (and stable) when every leading block is well conditioned
+        c.discard('TOEPLITZ:ill-conditioned-leading-block(cond>1e3)')
         return
     X = np.asarray(result)
-    cond = np.linalg.cond(A)
-    c.compare('TOEPLITZ:residual', A @ X, Z.astype(complex), 1e-10 * max(1.0, cond), {'fn': 'TOEPLITZ'},
+    neg = bool(np.min(toeplitz_pivots(T0, TC, TR)[1].real) <= 0)
+    c.compare('TOEPLITZ:residual', A @ X, Z.astype(complex), 1e-12 * max(1.0, lead) ** 2,
+              {'fn': 'TOEPLITZ', 'pivot_with_non_positive_real_part': neg},
               scale=max(float(np.max(np.abs(Z))), float(np.max(np.abs(A)) * np.max(np.abs(X))), 1e-300),
-              detail={'M': len(TC), 'cond': float(cond)})
+              detail={'M': len(TC), 'max_leading_cond': lead})
 
 
-def post_CHOLESKY(A, B, method, result):
+def _snapA(A):
+    try:
+        return np.array(A, copy=True)
+    except Exception:
+        return None
+
+
+def _snapB(B):
+    try:
+        return np.array(B, copy=True)
+    except Exception:
+        return None
+
+
+def post_CHOLESKY(A, B, method, OLD, result):
     c = _ctx()
-    A = np.asarray(A)
-    B = np.asarray(B)
+    A_after, B_after = A, B
+    A, B = OLD.A0, OLD.B0                     # the system as the caller passed it
+    if A is None or B is None:
+        c.discard('CHOLESKY:shape-domain')
+        return
     if A.ndim != 2 or A.shape[0] != A.shape[1] or B.shape[0] != A.shape[0]:
         c.discard('CHOLESKY:shape-domain')
         return
@@ -162,6 +185,13 @@ def post_CHOLESKY(A, B, method, result):
     c.compare('CHOLESKY:residual', A @ X, B, 1e-10 * (lam[-1] / lam[0]), {'fn': 'CHOLESKY', 'method': str(method)},
               scale=max(float(np.max(np.abs(B))), float(np.max(np.abs(A)) * np.max(np.abs(X))), 1e-300),
               detail={'n': A.shape[0], 'cond': float(lam[-1] / lam[0])})
+    # ... and it is still the caller's system afterwards: T x = z is a statement about the arrays the caller holds
+    try:
+        same = np.array_equal(np.asarray(A_after), A) and np.array_equal(np.asarray(B_after), B)
+    except Exception:
+        same = True
+    c.require('CHOLESKY:system-not-modified', bool(same), {'n': A.shape[0], 'A_changed': not np.array_equal(np.asarray(A_after), A)},
+              {'fn': 'CHOLESKY', 'method': str(method)})
 
 
 def setup(c):
@@ -175,7 +205,7 @@ def setup(c):
                     'HERMTOEP': install.original('spectrum.toeplitz', 'HERMTOEP')})
     install.contract('spectrum.toeplitz', 'HERMTOEP', post_HERMTOEP)
     install.contract('spectrum.toeplitz', 'TOEPLITZ', post_TOEPLITZ)
-    install.contract('spectrum.cholesky', 'CHOLESKY', post_CHOLESKY)
+    install.contract('spectrum.cholesky', 'CHOLESKY', post_CHOLESKY, snapshots=[('A0', _snapA), ('B0', _snapB)])
 
 
 PROFILES = ['small', 'uniform', 'near1', 'alt', 'mixed']
@@ -340,12 +370,29 @@ def run_case(c, d):
     elif d['fn'] == 'TOEPLITZ':
         tc = gen.noise(rng, p, cplx)
         tr = gen.noise(rng, p, cplx)
-        t0 = (2.0 + rng.uniform()) * (np.sum(np.abs(tc)) + np.sum(np.abs(tr)) + 1.0)
-        Z = gen.noise(rng, p + 1, cplx)
+        how = d.get('i', 0) % 3
+        if how == 0:
+            # diagonally dominant (leading minors provably non-zero)
+            t0 = (2.0 + rng.uniform()) * (np.sum(np.abs(tc)) + np.sum(np.abs(tr)) + 1.0)
+        else:
+            # general: any sign / phase of the diagonal, modest dominance (pivots of either sign); the contract
+            # keeps the systems whose leading blocks are all well conditioned
+            t0 = rng.uniform(0.5, 6.0) * (gen.noise(rng, 1, cplx)[0] if cplx else rng.choice([-1.0, 1.0]))
+            if how == 2:
+                tc, tr = tc[:min(p, 8)], tr[:min(p, 8)]
+        Z = gen.noise(rng, len(tc) + 1, cplx)
+        args = (t0, tc.astype(complex), tr.astype(complex), Z)
+        if how == 2 and d.get('i', 0) % 2:
+            args = (complex(t0) if cplx else float(t0), [complex(v) for v in tc], [complex(v) for v in tr], list(Z))
         try:
-            spectrum.toeplitz.TOEPLITZ(t0, tc.astype(complex), tr.astype(complex), Z)
+            spectrum.toeplitz.TOEPLITZ(*args)
         except Exception as exc:
-            c.exception('TOEPLITZ', exc, {'fn': 'TOEPLITZ'})
+            A = scipy.linalg.toeplitz(np.concatenate([[t0], tc]), np.concatenate([[t0], tr]))
+            lead = max(float(np.linalg.cond(A[:m, :m])) for m in range(1, A.shape[0] + 1))
+            if lead <= 1e3:
+                c.exception('TOEPLITZ', exc, {'fn': 'TOEPLITZ'})
+            else:
+                c.discard('workload:TOEPLITZ-ill-conditioned-leading-block-may-raise')
     else:
         n = p + 1
         G = gen.noise(rng, 2 * n * n, cplx).reshape(2 * n, n)
